@@ -45,8 +45,14 @@ func metadataLiveness(w *World) {
 	rounds := 48
 	for i := 0; i < rounds && !t.InfoComplete(); i++ {
 		w.apply("mtick")
+		if !w.cfg.AutoDrain {
+			w.deliver(-1)
+		}
 		if w.can(fmt.Sprintf("manswer:%d", honest.idx)) {
 			w.apply(fmt.Sprintf("manswer:%d", honest.idx))
+		}
+		if !w.cfg.AutoDrain {
+			w.deliver(-1)
 		}
 		w.checkInvariants()
 	}
@@ -93,6 +99,15 @@ func c12Specs() []*bfsSpec {
 		cfg := worldCfg{Geom: "gtail", Magnet: true, AutoDrain: true, InfoKind: kind}
 		specs = append(specs, &bfsSpec{Name: "c12-degenerate-" + kind, Cfg: cfg,
 			Alphabet: []string{"mtick", "manswer:1", "manswer:2", "mdata:1:0:true:true:tail", "mdata:0:0:forged:true:tail", "close:1", "want:0:1", "tick"}, Depth: 4, DepthT: 5})
+	}
+	// the torrent's loop lags behind: blocks sit in its event queue while the
+	// same remote already sends its next messages
+	for _, size := range []int{0, 16385, 20000} {
+		cfg := worldCfg{Geom: "gtail", Magnet: true, InfoSize: size}
+		specs = append(specs, &bfsSpec{Name: fmt.Sprintf("c12-lagging-loop%d", size), Cfg: cfg,
+			Setup:    []string{"drain"},
+			Alphabet: []string{"mtick", "manswer:1", "manswer:2", "have:1:0", "bf:2:7", "ev", "drain", "adv:6"},
+			Depth: 5, DepthT: 7, Live: metadataLiveness})
 	}
 	// size votes arrive one by one: a hostile peer announces a too-large size and
 	// fills the buffer sized for it before two honest peers out-vote it
